@@ -28,6 +28,13 @@ class App:
         if kind == "single":
             start_response(p["status"], list(p["headers"]))
             return [b"ok"]
+        if kind == "swallow":
+            # the application catches the refusal of its bad start_response call and carries on with a fallback body
+            try:
+                start_response(p["status"], list(p["headers"]))
+            except Exception:
+                pass
+            return [b"fallback"]
         if kind == "twice-plain":
             start_response("200 OK", [("X-First", "1")])
             start_response("404 Not Found", [("X-Second", "2")])
@@ -101,6 +108,17 @@ def cases():
                 yield "hop", {"kind": "single", "status": "200 OK", "headers": [(variant, val), ("X-Z", "z")]}
     for k in ("twice-plain", "twice-excinfo-before", "twice-excinfo-after"):
         yield "second-call", {"kind": k}
+    # the documented websocket exception must not open the door for the other hop-by-hop fields, whatever the order
+    for h in HOP:
+        for val in ("x", "chunked", "gunicorn/evil"):
+            yield "hop-with-upgrade", {"kind": "single", "status": "200 OK", "headers": [("Connection", "upgrade"), (h.title(), val), ("X-Z", "z")]}
+            yield "hop-with-upgrade", {"kind": "single", "status": "200 OK", "headers": [(h.title(), val), ("Connection", "upgrade"), ("X-Z", "z")]}
+            yield "hop-with-upgrade", {"kind": "single", "status": "101 Switching Protocols", "headers": [("Connection", "Upgrade"), ("Upgrade", "websocket"), (h.title(), val), ("X-Z", "z")]}
+    # refused start_response calls that the application swallows: nothing of the refused call may reach the wire
+    for bad_status in ("299 EVIL\r\nX-Evil: 1", "200 OK\n", "200 O\x00K"):
+        yield "swallow", {"kind": "swallow", "status": bad_status, "headers": [("X-Z", "z")]}
+    for bad_header in (("X-A", "a\r\nX-Evil: 1"), ("X A", "v"), ("X-A", "a\n")):
+        yield "swallow", {"kind": "swallow", "status": "200 OK", "headers": [("X-First", "1"), bad_header, ("X-Z", "z")]}
 
 
 def judge(label, prog, o, ver):
@@ -111,6 +129,15 @@ def judge(label, prog, o, ver):
     head_end = wire.find(b"\r\n\r\n")
     first = resps[0] if resps else None
     refused = (not wire) or (first is not None and first.code is not None and first.code >= 400 and not first.get(b"server"))
+    if prog["kind"] == "swallow":
+        head = wire.split(b"\r\n\r\n")[0]
+        if b"X-Evil" in head or b"EVIL" in head or b"\x00" in head or b"\n\r\n" in wire[:wire.find(b"\r\n\r\n") + 4].replace(b"\r\n", b""):
+            return "refused-call-reached-the-wire", "the application's start_response(%r, %r) was refused, it returned a fallback body, and the wire carries %r" % (
+                prog["status"], prog["headers"], wire[:160])
+        for line in head.split(b"\r\n"):
+            if b"\n" in line or b"\r" in line:
+                return "refused-call-reached-the-wire", "bare CR/LF inside a head line: %r" % line
+        return None
     if prog["kind"] != "single":
         # repeated start_response: no line other than server lines and X-First / X-Second, never 'Injected'
         if b"Injected" in wire.split(b"\r\n\r\n")[0]:
@@ -207,7 +234,7 @@ def run(ctx):
     viols = [v for r in res for v in r["viols"]]
     ncases = sum(1 for _ in cases())
     nontriv = sum(v for k, v in outcomes.items() if k.endswith("/refused")) + sum(
-        v for k, v in outcomes.items() if k.split("/")[0] in ("hop", "second-call", "value-pair", "name-pair", "reason-pair"))
+        v for k, v in outcomes.items() if k.split("/")[0] in ("hop", "hop-with-upgrade", "swallow", "second-call", "value-pair", "name-pair", "reason-pair"))
     cov = {
         "evaluations": evals,
         "distinct_nontrivial": nontriv,
